@@ -353,6 +353,10 @@ def gen_scenario(rng, idx):
           'seed': rng.randrange(1 << 30), 'overlay': None, 'dirty': None, 'second': rng.choice(['same', 'delete', 'keep'])}
     if fam == 'body_dirty':
         sc['dirty'] = rng.choice(['untracked', 'modified'])
+    if fam == 'body' and rng.random() < 0.2:
+        # the proposal branch cannot be created: --branch names an existing branch, or a branch literally named
+        # `evolve` blocks every default evolve/propose-... ref.  The command fails; nothing else may have happened
+        sc['branch_taken'] = rng.choice(['named', 'prefix'])
     if fam == 'body_overlay':
         sc['overlay'] = {'kind': rng.choice(['dir', 'dir_sparse', 'patch']), 'scope': rng.choice(['global', 'machine', 'project']), 'module': rng.randrange(n)}
     return sc
@@ -457,6 +461,11 @@ def run_scenario(sc, seps):
             world.write(os.path.join(sb.repo, 'notes.txt'), 'work in progress\n')
         elif sc.get('dirty') == 'modified':
             with open(os.path.join(sb.repo, 'modules/instructions/m0/AGENTS.md'), 'a') as f: f.write('uncommitted\n')
+        bargs = []
+        if sc.get('branch_taken') == 'named':
+            git(sb, 'branch', 'taken'); bargs = ['--branch', 'taken']
+        elif sc.get('branch_taken') == 'prefix':
+            git(sb, 'branch', 'evolve')
         # --- observations before
         before_all = sb.snapshot()
         before_out = outside_repo_git(sb)
@@ -469,7 +478,7 @@ def run_scenario(sc, seps):
         ob['dry'] = {'rc': rc, 'doc': doc}
         ob['dry_changed'] = sorted(p.replace(sb.root, '') for p in snap_diff(before_out, outside_repo_git(sb)))
         # --- real run
-        rc, doc, so, se = sb.cli_json(tflag + ['evolve', 'propose', '--yes', '--scope', sc['scope']])
+        rc, doc, so, se = sb.cli_json(tflag + ['evolve', 'propose', '--yes', '--scope', sc['scope']] + bargs)
         ob['propose'] = {'rc': rc, 'doc': doc, 'stderr': se[-400:]}
         after_out = outside_repo_git(sb)
         ob['changed_outside_git'] = sorted(p.replace(sb.root, '') for p in snap_diff(before_out, after_out))
@@ -569,6 +578,13 @@ def judge_scenario(ctx, avh, sc, ob, seps, cases_dep, cases_dec):
         viol('evolve propose moved the original branch')
     if ob['status_after'] != ob['status_before'] and (committed or not ob['created']):
         viol('evolve propose changed uncommitted work / index of the config repo', extra={'status_before': ob['status_before'], 'status_after': ob['status_after']})
+    if sc.get('branch_taken'):
+        needs = bool(dry and dry.get('ok') and dry['data'].get('candidates'))
+        if needs and doc and doc.get('ok') and not ob['created']:
+            viol('evolve propose reports success although its proposal branch could not be created')
+        ctx.count('propose', key=(sc['target'], sc['family'], 'branch_taken', sc['branch_taken']), tags=['family:' + sc['family'], 'outcome:branch-taken-%s' % ('created' if ob['created'] else 'refused')])
+        if not ob['created']:
+            return
     if sc.get('dirty'):
         codes = [e.get('code') for e in (doc or {}).get('errors', [])]
         needs = bool(dry and dry.get('ok') and dry['data'].get('candidates'))
